@@ -6,6 +6,7 @@ import (
 	"context"
 	"errors"
 	"fmt"
+	"time"
 
 	"github.com/bradenaw/juniper/stream"
 
@@ -20,6 +21,8 @@ type Step struct {
 	Err error
 	// Block: wait until the context ends and return its error (a source with nothing to deliver).
 	Block bool
+	// Delay: (virtual) time the source takes before answering this call.
+	Delay time.Duration
 }
 
 // Src is a scripted stream that logs how it is used.
@@ -31,14 +34,18 @@ type Src struct {
 	// Yield: a scheduling point inside Next (source latency).
 	Yield bool
 
-	pos     int
-	Nexts   int
-	Closes  int
-	inNext  int
-	Handed  int // items handed out so far
-	Faults  []string
-	OnHand  func(v int)
-	closing bool
+	pos    int
+	Nexts  int
+	Closes int
+	inNext int
+	Handed int // items handed out so far
+	// (virtual) time at which each item was handed out, and at which the end / an error was
+	// first reported (-1 = not yet)
+	HandedAt []time.Duration
+	EndedAt  time.Duration
+	Faults   []string
+	OnHand   func(v int)
+	closing  bool
 }
 
 // Vals builds a source that yields vals and then End.
@@ -56,6 +63,9 @@ func (s *Src) fault(format string, a ...any) {
 
 func (s *Src) Next(ctx context.Context) (int, error) {
 	hx.Atomically(func() {
+		if s.Nexts == 0 && s.EndedAt == 0 {
+			s.EndedAt = -1
+		}
 		if s.Closes > 0 {
 			s.fault("Next called after Close")
 		}
@@ -85,20 +95,39 @@ func (s *Src) Next(ctx context.Context) (int, error) {
 		}
 	})
 	if done {
+		hx.Atomically(func() {
+			if s.EndedAt < 0 {
+				s.EndedAt = hx.Now()
+			}
+		})
 		if s.Final != nil {
 			return 0, s.Final
 		}
 		return 0, stream.End
+	}
+	if st.Delay > 0 {
+		hx.Sleep(st.Delay)
+		if err := ctx.Err(); err != nil {
+			// gave up while waiting: the step is not consumed
+			hx.Atomically(func() { s.pos-- })
+			return 0, err
+		}
 	}
 	if st.Block {
 		<-ctx.Done()
 		return 0, ctx.Err()
 	}
 	if st.Err != nil {
+		hx.Atomically(func() {
+			if s.EndedAt < 0 {
+				s.EndedAt = hx.Now()
+			}
+		})
 		return 0, st.Err
 	}
 	hx.Atomically(func() {
 		s.Handed++
+		s.HandedAt = append(s.HandedAt, hx.Now())
 		if s.OnHand != nil {
 			s.OnHand(st.Val)
 		}
